@@ -197,3 +197,23 @@ fn c08_camera_projection() {
     for i in 0..4 { for j in 0..4 { assert!(o.project.0[i][j] == wo.0[i][j]); } }
     kani::cover!(w == 64 && h == 48, "4:3");
 }
+
+/// Rect::from((H, V)) for *every* kind of bound pair (Included / Excluded /
+/// Unbounded on either end, as the RangeBounds impl of a (Bound, Bound) tuple):
+/// the rect contains exactly the points both ranges contain.
+#[kani::proof]
+fn c08_rect_from_bounds() {
+    use core::ops::{Bound, RangeBounds};
+    let mk = || -> Bound<u32> {
+        let k: u8 = kani::any();
+        let v: u32 = kani::any();
+        kani::assume(k < 3 && v <= 8);
+        match k { 0 => Bound::Included(v), 1 => Bound::Excluded(v), _ => Bound::Unbounded }
+    };
+    let (h, v) = ((mk(), mk()), (mk(), mk()));
+    let r = Rect::from((h, v));
+    let (x, y): (u32, u32) = (kani::any(), kani::any());
+    kani::assume(x <= 10 && y <= 10);
+    assert!(r.contains(x, y) == (h.contains(&x) && v.contains(&y)));
+    kani::cover!(matches!(h.0, Bound::Excluded(_)) && matches!(v.1, Bound::Included(_)) && r.contains(x, y), "excluded start, included end");
+}
